@@ -6,6 +6,18 @@ From Coq Require Import Permutation.
 
 (** * Chains, suffixes, rotations *)
 
+Lemma NoDup_app_r {A} (l l' : list A) : NoDup (l ++ l') -> NoDup l'.
+Proof. induction l as [|x t IH]; simpl; auto. intros H. inversion H; auto. Qed.
+
+Lemma NoDup_app_intro {A} (l l' : list A) :
+  NoDup l -> NoDup l' -> (forall x, In x l -> In x l' -> False) -> NoDup (l ++ l').
+Proof.
+  induction l as [|x t IH]; simpl; auto. intros H1 H2 H3. inversion H1; subst.
+  constructor.
+  - intros Hin. apply in_app_or in Hin. destruct Hin as [Hin|Hin]; [contradiction|]. eapply H3; eauto.
+  - apply IH; auto. intros y Hy Hy'. eapply H3; eauto.
+Qed.
+
 Lemma chain_cons E x t : chain E (x :: t) <-> (t <> [] -> E x (hd 0 t)) /\ chain E t.
 Proof.
   simpl. destruct t as [|y t']; simpl; split; intros [A B]; split; auto.
@@ -17,25 +29,28 @@ Lemma chain_app E a b :
   chain E (a ++ b) <-> chain E a /\ chain E b /\ (a <> [] -> b <> [] -> E (last a 0) (hd 0 b)).
 Proof.
   induction a as [|x t IH].
-  - simpl. split; [intros H; repeat split; auto; congruence | tauto].
-  - rewrite <- app_comm_cons. rewrite !chain_cons, IH. destruct t as [|y t'].
-    + simpl. destruct b as [|z b']; simpl; split.
-      * intros [_ [_ [H _]]]. repeat split; auto; try congruence.
-      * intros _. repeat split; auto; try congruence.
-      * intros [A [_ [B _]]]. repeat split; auto; try congruence. intros _ _. apply A. discriminate.
-      * intros [_ [B C]]. repeat split; auto; try congruence. intros _. apply C; discriminate.
-    + cbn [app hd]. replace (last (x :: y :: t') 0) with (last (y :: t') 0) by reflexivity.
+  - simpl. intuition congruence.
+  - destruct t as [|y t'].
+    + clear IH. cbn [app]. rewrite chain_cons. cbn [last].
       split.
-      * intros [A [B [C D]]]. repeat split; auto. intros _ Hb. apply D; [discriminate | exact Hb].
-      * intros [[A B] [C D]]. repeat split; auto; try (intros; apply A; discriminate).
-        intros _ Hb. apply D; [discriminate | exact Hb].
+      * intros [A B]. split; [simpl; tauto|]. split; [exact B|]. intros _ Hb. apply A. exact Hb.
+      * intros [_ [B C]]. split; [|exact B]. intros Hb. apply C; [discriminate | exact Hb].
+    + change ((x :: y :: t') ++ b) with (x :: ((y :: t') ++ b)). rewrite chain_cons, IH.
+      rewrite (chain_cons E x (y :: t')).
+      change (last (x :: y :: t') 0) with (last (y :: t') 0). cbn [app hd].
+      split.
+      * intros [A [B [C D]]]. split; [split; [intros _; apply A; discriminate | exact B]|].
+        split; [exact C|]. intros _ Hb. apply D; [discriminate | exact Hb].
+      * intros [[A B] [C D]]. split; [intros _; apply A; discriminate|]. split; [exact B|].
+        split; [exact C|]. intros _ Hb. apply D; [discriminate | exact Hb].
 Qed.
 
 Lemma last_app_cons {A} (a : list A) x b d : last (a ++ x :: b) d = last (x :: b) d.
 Proof.
-  induction a as [|y t IH]; auto.
-  rewrite <- app_comm_cons. cbn [last]. destruct (t ++ x :: b) eqn:E; [destruct t; discriminate|].
-  rewrite <- E. exact IH.
+  induction a as [|y t IH]; [reflexivity|].
+  change ((y :: t) ++ x :: b) with (y :: (t ++ x :: b)).
+  destruct (t ++ x :: b) as [|z l] eqn:E; [destruct t; discriminate|].
+  change (last (y :: z :: l) d) with (last (z :: l) d). exact IH.
 Qed.
 
 Lemma last_In {A} (l : list A) d : l <> [] -> In (last l d) l.
@@ -67,22 +82,19 @@ Proof. apply Permutation_length. apply rot_perm. Qed.
 Lemma simple_cycle_rot E k c : simple_cycle E c -> simple_cycle E (rot k c).
 Proof.
   intros [Hne [Hnd Hch]]. unfold rot.
+  pose proof (firstn_skipn k c) as F.
   destruct (firstn k c) as [|a0 a'] eqn:Ea.
-  { rewrite app_nil_r. rewrite <- (firstn_skipn k c) in Hne, Hnd, Hch. rewrite Ea in *. simpl in *.
-    repeat split; auto. }
+  { rewrite app_nil_r. simpl in F. rewrite F. split; [|split]; assumption. }
   destruct (skipn k c) as [|b0 b'] eqn:Eb.
-  { simpl. rewrite <- (firstn_skipn k c) in Hne, Hnd, Hch. rewrite Ea, Eb in *.
-    rewrite app_nil_r in *. repeat split; auto. }
-  rewrite <- (firstn_skipn k c) in Hnd, Hch. rewrite Ea, Eb in Hnd, Hch.
+  { rewrite app_nil_r in F. simpl. rewrite F. split; [|split]; assumption. }
+  rewrite <- F in Hnd, Hch.
   split; [discriminate|]. split.
   - eapply Permutation_NoDup; [apply Permutation_app_comm | exact Hnd].
-  - cbn [app hd] in Hch |- *.
-    change (a0 :: a' ++ b0 :: b') with ((a0 :: a') ++ b0 :: b') in Hch.
-    rewrite <- app_assoc in Hch. apply chain_app in Hch. destruct Hch as [Ca [Cb Hab]].
-    change ((b0 :: b') ++ [a0]) with ((b0 :: b') ++ [a0]) in Cb. apply chain_app in Cb.
-    destruct Cb as [Cb [_ Hba]].
-    change (b0 :: b' ++ a0 :: a') with ((b0 :: b') ++ a0 :: a').
-    rewrite <- app_assoc. apply chain_app. split; [exact Cb|]. split.
+  - assert (Hch' : chain E ((a0 :: a') ++ ((b0 :: b') ++ [a0]))) by (rewrite app_assoc; exact Hch).
+    apply chain_app in Hch'. destruct Hch' as [Ca [Cb Hab]].
+    apply chain_app in Cb. destruct Cb as [Cb [_ Hba]].
+    assert (G : chain E ((b0 :: b') ++ ((a0 :: a') ++ [b0]))); [|rewrite app_assoc in G; exact G].
+    apply chain_app. split; [exact Cb|]. split.
     + apply chain_app. split; [exact Ca|]. split; [simpl; auto|].
       intros _ _. cbn [hd]. specialize (Hab ltac:(discriminate) ltac:(discriminate)). exact Hab.
     + intros _ _. cbn [hd app]. apply Hba; discriminate.
@@ -94,23 +106,24 @@ Qed.
 Definition spath (E : nat -> nat -> Prop) (u v : nat) (p : list nat) : Prop :=
   hd 0 p = u /\ last p 0 = v /\ p <> [] /\ NoDup p /\ chain E p.
 
-Lemma reach_spath E u v : reach E u v -> exists p, spath E u v p.
+Lemma reach_spath (E : nat -> nat -> Prop) u v : reach E u v -> exists p, spath E u v p.
 Proof.
   intros H. induction H as [u|u x v Hux Hxv [p [P1 [P2 [P3 [P4 P5]]]]]].
-  - exists [u]. repeat split; simpl; auto; try discriminate. constructor; [intros []|constructor].
+  - exists [u]. split; [reflexivity|]. split; [reflexivity|]. split; [discriminate|].
+    split; [constructor; [intros []|constructor] | simpl; auto].
   - destruct (in_dec Nat.eq_dec u p) as [Hin|Hout].
     + destruct (index_of_split u p Hin) as [pre [suf [H1 [H2 [H3 H4]]]]].
-      exists (u :: suf). subst p. repeat split; auto; try discriminate.
+      exists (u :: suf). subst p. split; [reflexivity|]. split; [|split; [discriminate|split]].
       * rewrite last_app_cons in P2. exact P2.
-      * eapply NoDup_app_remove_l; eauto.
+      * eapply NoDup_app_r; eauto.
       * apply chain_app in P5. tauto.
-    + exists (u :: p). repeat split; auto; try discriminate.
+    + exists (u :: p). split; [reflexivity|]. split; [|split; [discriminate|split]].
       * destruct p; [congruence|]. exact P2.
       * constructor; auto.
       * apply chain_cons. split; auto. intros _. rewrite P1. exact Hux.
 Qed.
 
-Lemma spath_reach E u v p : spath E u v p -> reach E u v.
+Lemma spath_reach (E : nat -> nat -> Prop) u v p : spath E u v p -> reach E u v.
 Proof.
   intros [P1 [P2 [P3 [_ P5]]]]. revert u P1 P3 P5 P2.
   induction p as [|x t IH]; intros u P1 P3 P5 P2; [congruence|].
@@ -121,7 +134,7 @@ Proof.
 Qed.
 
 (** An edge u -> x together with a way back from x to u closes a simple cycle through u. *)
-Lemma cycle_from_back_edge E u x : E u x -> reach E x u -> exists c, simple_cycle E c /\ In u c /\ In x c.
+Lemma cycle_from_back_edge (E : nat -> nat -> Prop) u x : E u x -> reach E x u -> exists c, simple_cycle E c /\ In u c /\ In x c.
 Proof.
   intros Hux Hxu. destruct (reach_spath E x u Hxu) as [p [P1 [P2 [P3 [P4 P5]]]]].
   exists p. split; [|split].
@@ -132,14 +145,14 @@ Proof.
 Qed.
 
 (** Conversely the nodes of a simple cycle reach each other. *)
-Lemma chain_reach_last E x t : chain E (x :: t) -> reach E x (last (x :: t) 0).
+Lemma chain_reach_last (E : nat -> nat -> Prop) x t : chain E (x :: t) -> reach E x (last (x :: t) 0).
 Proof.
   revert x; induction t as [|y t' IH]; intros x H; [apply reach_refl|].
   apply chain_cons in H. destruct H as [A B].
   eapply reach_step; [apply A; discriminate|]. exact (IH y B).
 Qed.
 
-Lemma chain_reach_in E x t y : chain E (x :: t) -> In y (x :: t) -> reach E x y.
+Lemma chain_reach_in (E : nat -> nat -> Prop) x t y : chain E (x :: t) -> In y (x :: t) -> reach E x y.
 Proof.
   revert x; induction t as [|z t' IH]; intros x H Hy.
   - destruct Hy as [Hy|[]]. subst. apply reach_refl.
@@ -148,12 +161,12 @@ Proof.
     eapply reach_step; [apply A; discriminate|]. apply IH; auto.
 Qed.
 
-Lemma simple_cycle_hd_reach E c y :
+Lemma simple_cycle_hd_reach (E : nat -> nat -> Prop) c y :
   simple_cycle E c -> In y c -> reach E (hd 0 c) y /\ reach E y (hd 0 c).
 Proof.
   intros [Hne [Hnd Hch]] Hy. destruct c as [|x t]; [congruence|]. cbn [hd] in *.
   split.
-  - apply chain_app in Hch. destruct Hch as [Ca _]. apply chain_reach_in; auto.
+  - apply chain_app in Hch. destruct Hch as [Ca _]. exact (chain_reach_in E x t y Ca Hy).
   - destruct (in_split y (x :: t) Hy) as [l1 [l2 El]]. rewrite El in Hch.
     rewrite <- app_assoc in Hch. apply chain_app in Hch. destruct Hch as [_ [Hch _]].
     rewrite <- app_comm_cons in Hch.
@@ -220,7 +233,7 @@ Definition good_path (g : graph) (path : list nat) (cur : nat) : Prop :=
 Definition cycle_ok (g : graph) (directed : bool) (c : list nat) : Prop :=
   simple_cycle (edge g) c /\ (directed = false -> length c <> 2) /\ forall x, In x c -> x < length g.
 
-Lemma gc_scan_spec g directed prev path cur : forall nbrs,
+Lemma gc_scan_spec (g : graph) directed prev path (cur : nat) : forall nbrs,
   let r := gc_scan directed prev path nbrs in
   (forall c, In c (fst r) -> exists v, In v nbrs /\ In v path /\ c = skipn (index_of v path) path /\
                                        (directed = false -> is_prev prev v = false)) /\
@@ -254,7 +267,7 @@ Proof.
   - destruct o as [a|]; [|discriminate]. destruct (concat_opt t) as [b|] eqn:E; [|discriminate].
     inversion H; subst r. apply in_app_or in Hc. destruct Hc as [Hc|Hc].
     + exists a. split; [left; reflexivity | exact Hc].
-    + destruct (IH b eq_refl Hc) as [a' [A B]]. exists a'. split; [right; exact A | exact B].
+    + destruct (IH b eq_refl Hc) as [a' [H1 H2]]. exists a'. split; [right; exact H1 | exact H2].
 Qed.
 
 Lemma prev_of_app path v q : prev_of (path ++ [v; q]) = Some v.
@@ -271,7 +284,7 @@ Proof.
   { intros x Hx. rewrite H1. apply in_or_app. right. exact Hx. }
   split; [|split].
   - split; [discriminate|]. split.
-    + rewrite H1 in Hnd. eapply NoDup_app_remove_l; eauto.
+    + rewrite H1 in Hnd. eapply NoDup_app_r; eauto.
     + apply chain_app. split; [|split; [simpl; auto|]].
       * rewrite H1 in Hch. apply chain_app in Hch. tauto.
       * intros _ _. cbn [hd]. rewrite H1 in Hlast. rewrite last_app_cons in Hlast. rewrite Hlast. exact Hedge.
@@ -286,7 +299,7 @@ Lemma good_path_extend g path cur v :
 Proof.
   intros Hwf [Hne [Hlast [Hnd [Hch Hlt]]]] Hedge Hout. split; [destruct path; discriminate|].
   split; [apply last_last|]. split; [|split].
-  - apply NoDup_app; auto; [constructor; [intros []|constructor] | ].
+  - apply NoDup_app_intro; auto; [constructor; [intros []|constructor] | ].
     intros x Hx [Hv|[]]. subst. contradiction.
   - apply chain_app. split; [exact Hch|]. split; [simpl; auto|]. intros _ _. cbn [hd]. rewrite Hlast. exact Hedge.
   - intros x Hx. apply in_app_or in Hx. destruct Hx as [Hx|[Hx|[]]]; [apply Hlt; exact Hx|].
@@ -302,11 +315,11 @@ Proof.
   destruct (gc_scan_spec g directed (prev_of path) path cur (row g cur)) as [S1 S2].
   destruct (concat_opt _) as [sub|] eqn:Esub; [|discriminate]. inversion H; subst cs. clear H.
   apply in_app_or in Hc. destruct Hc as [Hc|Hc].
-  - destruct (S1 c Hc) as [v [A [B [C D]]]]. subst c. eapply back_edge_cycle; eauto.
+  - destruct (S1 c Hc) as [v [A [B [C D]]]]. subst c. exact (back_edge_cycle g directed path cur v Hwf Hgp A B D).
   - destruct (concat_opt_In _ _ _ Esub Hc) as [a [Ha Hca]].
     apply in_map_iff in Ha. destruct Ha as [v [Hv Hin]]. apply in_rev in Hin.
     destruct (S2 v Hin) as [A B].
-    eapply IH; [|exact Hv|exact Hca]. apply good_path_extend; auto.
+    eapply IH; [|exact Hv|exact Hca]. exact (good_path_extend g path cur v Hwf Hgp A B).
 Qed.
 
 (** Minimum and the canonical rotation. *)
@@ -515,4 +528,103 @@ Proof.
     + rewrite Ei. apply roll_min_min_first. intros E0. subst ci. rewrite Ei in Ni. apply Ni. reflexivity.
     + rewrite Ej. apply roll_min_min_first. intros E0. subst cj. rewrite Ej in Nj. apply Nj. reflexivity.
   - intros H. apply Hkeys. cbn [okey]. apply isort_perm. apply same_ucycle_perm. exact H.
+Qed.
+
+(** * break_cycles: BOUNDED theorems (exhaustive evaluation, n <= 4) and the refutation *)
+
+Definition out_degree (g : graph) (root : list nat) : nat := sumn (map (fun r => length (row g r)) root).
+
+(** The model run with the canonical oracle answers (labels = smallest node of the class). *)
+Definition bc_run (directed : option bool) (d : bool) (g : graph) (root : list nat) : result graph :=
+  break_cycles g root directed (canon_labels g d) (canon_labels (drop_loops g) d).
+Definition bc_check (directed : option bool) (d : bool) (g : graph) (root : list nat) : bool :=
+  match bc_run directed d g root with
+  | Ok h => bc_post g root d h
+  | Err _ => false
+  end.
+
+(** Directed branch: explicit directed=True on every digraph, inferred flag on the non-symmetric ones. *)
+Definition dir_check (g : graph) : bool :=
+  forallb (fun root => negb (0 <? out_degree g root) ||
+                       (bc_check (Some true) true g root && (is_symmetric g || bc_check None true g root)))
+          (nonempty_sublists (nodes g)).
+Definition small_digraphs : list graph :=
+  all_digraphs 0 true ++ all_digraphs 1 true ++ all_digraphs 2 true ++ all_digraphs 3 true ++ all_digraphs 4 false.
+
+Lemma dir_check_small : forallb dir_check small_digraphs = true.
+Proof. vm_cast_no_check (eq_refl true). Qed.
+
+Theorem break_cycles_ok_upto_4_lemma (g : graph) (root : list nat) (directed : option bool) :
+  In g small_digraphs -> In root (nonempty_sublists (nodes g)) -> 0 < out_degree g root ->
+  directed = Some true \/ (directed = None /\ is_symmetric g = false) ->
+  exists h, bc_run directed true g root = Ok h /\ bc_post g root true h = true.
+Proof.
+  intros Hg Hr Hd Hflag.
+  pose proof (proj1 (forallb_forall dir_check small_digraphs) dir_check_small g Hg) as H.
+  unfold dir_check in H. rewrite forallb_forall in H. specialize (H root Hr).
+  apply Nat.ltb_lt in Hd. rewrite Hd in H. cbn [negb orb] in H.
+  apply andb_true_iff in H. destruct H as [H1 H2].
+  destruct Hflag as [E|[E Hs]]; subst directed.
+  - unfold bc_check in H1. destruct (bc_run (Some true) true g root) as [h|e]; [|discriminate].
+    exists h. auto.
+  - rewrite Hs in H2. cbn [orb] in H2. unfold bc_check in H2.
+    destruct (bc_run None true g root) as [h|e]; [|discriminate]. exists h. auto.
+Qed.
+
+(** Undirected branch. The positive statement needs the hypothesis that every node lying on a cycle
+    (of length >= 3) is reachable from the root set: cycles elsewhere are never visited. *)
+Definition on_ucycle_b (g : graph) (u : nat) : bool :=
+  existsb (fun v => negb (v =? u) && nthb (reach_from (remove_edge (remove_edge g u v) v u) [v]) u) (row g u).
+Definition cycles_covered (g : graph) (root : list nat) : bool :=
+  let r := reach_from g root in forallb (fun u => implb (on_ucycle_b g u) (nthb r u)) (nodes g).
+Definition und_check (g : graph) : bool :=
+  forallb (fun root => negb (0 <? out_degree g root) || negb (cycles_covered g root) ||
+                       (bc_check None false g root && bc_check (Some false) false g root))
+          (nonempty_sublists (nodes g)).
+Definition small_undirected : list graph :=
+  filter is_symmetric (all_digraphs 0 true ++ all_digraphs 1 true ++ all_digraphs 2 true ++
+                       all_digraphs 3 true ++ all_digraphs 4 true).
+
+Lemma und_check_small : forallb und_check small_undirected = true.
+Proof. vm_cast_no_check (eq_refl true). Qed.
+
+Theorem break_cycles_undirected_ok_upto_4_lemma (g : graph) (root : list nat) (directed : option bool) :
+  In g small_undirected -> In root (nonempty_sublists (nodes g)) -> 0 < out_degree g root ->
+  cycles_covered g root = true ->
+  directed = None \/ directed = Some false ->
+  exists h, bc_run directed false g root = Ok h /\ bc_post g root false h = true.
+Proof.
+  intros Hg Hr Hd Hcov Hflag.
+  pose proof (proj1 (forallb_forall und_check small_undirected) und_check_small g Hg) as H.
+  unfold und_check in H. rewrite forallb_forall in H. specialize (H root Hr).
+  apply Nat.ltb_lt in Hd. rewrite Hd, Hcov in H. cbn [negb orb] in H.
+  apply andb_true_iff in H. destruct H as [H1 H2].
+  destruct Hflag as [E|E]; subst directed.
+  - unfold bc_check in H1. destruct (bc_run None false g root) as [h|e]; [|discriminate]. exists h. auto.
+  - unfold bc_check in H2. destruct (bc_run (Some false) false g root) as [h|e]; [|discriminate]. exists h. auto.
+Qed.
+
+(** Refutation (D22): triangle {0,2,3}, separate root 1 carrying a self-loop. The undirected branch
+    returns the triangle untouched: the result is not acyclic. The coverage hypothesis above fails. *)
+Definition d22_graph : graph := [[2; 3]; [1]; [0; 3]; [0; 2]].
+
+Theorem break_cycles_undirected_refuted_lemma :
+  exists g root comp h,
+    wf_graph g /\ is_symmetric g = true /\ In root (nonempty_sublists (nodes g)) /\ 0 < out_degree g root /\
+    components_contract_b g false comp = true /\
+    (forall comp2, break_cycles g root None comp comp2 = Ok h) /\
+    ucycle h [0; 2; 3] /\ acyclic_b h false = false /\ bc_post g root false h = false /\
+    cycles_covered g root = false.
+Proof.
+  exists d22_graph, [1], [0; 1; 0; 0], [[2; 3]; []; [0; 3]; [0; 2]].
+  split.
+  { intros u v H. unfold d22_graph in *.
+    destruct u as [|[|[|[|u]]]]; simpl in H; cbn [length]; try lia; try (destruct u; contradiction). }
+  split; [reflexivity|]. split; [vm_compute; tauto|]. split; [vm_compute; lia|].
+  split; [reflexivity|]. split; [intros comp2; reflexivity|].
+  split.
+  { split; [|simpl; lia]. split; [discriminate|]. split.
+    - repeat constructor; simpl; intuition lia.
+    - simpl. unfold edge. simpl. tauto. }
+  split; [reflexivity|]. split; reflexivity.
 Qed.
